@@ -17,6 +17,7 @@ open SockModel.Deadline
 structure Entry where
   id : Nat
   when : Int
+  seq : Nat := 0        -- ghost: the order in which schedulings took effect
   deriving Repr, DecidableEq
 
 /-- `ToDos::Insert`: before the first element that is strictly later (stable) -/
@@ -30,8 +31,8 @@ def remove : List Entry → Nat → List Entry
   | x :: xs, id => if x.id = id then xs else x :: remove xs id
 
 /-- `ToDos::Move` -/
-def move (l : List Entry) (id : Nat) (when : Int) : List Entry :=
-  insert (remove l id) ⟨id, when⟩
+def move (l : List Entry) (id : Nat) (when : Int) (seq : Nat := 0) : List Entry :=
+  insert (remove l id) ⟨id, when, seq⟩
 
 /-- operations a task body may perform (all are management calls re-entering the driver
 on the stepping thread, where `PauseGuard`'s `try_lock` succeeds) -/
@@ -49,7 +50,7 @@ inductive BodyOp where
 inductive Event where
   /-- task `id` (due at `when`) was invoked; `now` is the clock reading the due test used;
       `rest` (ghost) is the remainder of the list at that moment -/
-  | ran (id : Nat) (when : Int) (now : Int) (rest : List Entry)
+  | ran (id : Nat) (when : Int) (now : Int) (rest : List Entry) (seq : Nat)
   /-- the timeout (ms, as passed to `poll`) the step handed to the socket wait -/
   | poll (ms : Int)
   /-- fuel exhausted: a task kept rescheduling a due task under an unlimited deadline
@@ -64,6 +65,7 @@ structure St where
   live : List Nat := []          -- ids whose `ToDo` handle object is alive
   known : List Nat := []         -- ids ever created
   pipe : Nat := 0                -- datagrams queued on the signalling pipe
+  nextSeq : Nat := 0             -- ghost: next scheduling sequence number
   stopFlag : Bool := false
   log : List Event := []         -- newest first
 
@@ -74,15 +76,15 @@ def St.body (s : St) (id : Nat) : List BodyOp :=
 
 /-- a management call; calls on handles that do not exist (any more) are not made -/
 def applyOp (s : St) : BodyOp → St
-  | .shift id w => if id ∈ s.live then { s with todos := move s.todos id w } else s
-  | .shiftd id ms => if id ∈ s.live then { s with todos := move s.todos id (s.now + ms * nsPerMs) } else s
+  | .shift id w => if id ∈ s.live then { s with todos := move s.todos id w s.nextSeq, nextSeq := s.nextSeq + 1 } else s
+  | .shiftd id ms => if id ∈ s.live then { s with todos := move s.todos id (s.now + ms * nsPerMs) s.nextSeq, nextSeq := s.nextSeq + 1 } else s
   | .cancel id => if id ∈ s.live then { s with todos := remove s.todos id } else s
   | .newAt id w =>
     if id ∈ s.known then s
-    else { s with todos := insert s.todos ⟨id, w⟩, live := id :: s.live, known := id :: s.known }
+    else { s with todos := insert s.todos ⟨id, w, s.nextSeq⟩, nextSeq := s.nextSeq + 1, live := id :: s.live, known := id :: s.known }
   | .newIn id ms =>
     if id ∈ s.known then s
-    else { s with todos := insert s.todos ⟨id, s.now + ms * nsPerMs⟩, live := id :: s.live, known := id :: s.known }
+    else { s with todos := insert s.todos ⟨id, s.now + ms * nsPerMs, s.nextSeq⟩, nextSeq := s.nextSeq + 1, live := id :: s.live, known := id :: s.known }
   | .drop id => { s with live := s.live.filter (· ≠ id) }
   | .adv ns => { s with now := s.now + ns }
   | .stop => { s with stopFlag := true, pipe := s.pipe + 1 }
@@ -97,7 +99,7 @@ def stepTodos : Nat → Deadline → St → Int × St
       if front.when - d.now > 0 then
         (minDuration (front.when - d.now) d.remaining, s)
       else
-        let s1 := { s with todos := rest, log := .ran front.id front.when d.now rest :: s.log }
+        let s1 := { s with todos := rest, log := .ran front.id front.when d.now rest front.seq :: s.log }
         let s2 := (s.body front.id).foldl applyOp s1
         let d' := d.tick s2.now
         if s2.todos.isEmpty then (d'.remaining, s2)
